@@ -35,18 +35,29 @@ Oracle (independent of the model, on the real outputs): every record is the
     duplicate sibling names, everything reaches the root); include_unchanged
     adds only true no-op records; optimised == generic.
 
-Mutants this was built against (scratch worktrees, see the report): see
-MUTANTS at the end of this docstring.
+Known defects of the unchanged code found by this check (reported with a family
+slug computed from the failing input; see the builder's report):
+ displaced-entry-not-reported, precise-ids-reemits-displaced-entry,
+ generic-include-unchanged-widens-closure, chk-unchanged-source-path-under-renamed-directory,
+ generic-wt-source-entry-not-found (InterInventoryTree on a dirstate working tree),
+ and in the compiled dirstate comparison: dirstate-path-closure-superset,
+ dirstate-duplicate-under-relocated-path, dirstate-lstat-below-non-directory,
+ dirstate-displaced-entry-not-reported, dirstate-unversioned-at-formerly-versioned-path.
 
-MUTANTS (all caught unless noted):
- m1 _changes_from_entries: drop `or executable[0] != executable[1]`
- m2 _handle_precise_ids: do not follow `new_parent_id` (parents of parents)
- m3 _handle_precise_ids: drop the "stopped being a directory" children step
- m4 iter_changes: removed entries loop skips ids whose kind is directory
- m5 InterCHKRevisionTree: `if result.file_id not in specific_file_ids: continue` without stashing
- m6 InterDirStateTree.iter_changes: source_index off by one / indices swapped
- m7 find_ids_across_trees: children only from the first tree
- harmless: set -> sorted list in _handle_precise_ids, loop rewritten as comprehension
+Mutants tried in a scratch worktree (each run with the families above treated
+as known; "oracle" = concrete failing input, "T2" = model/implementation
+mismatch):
+ m1 _changes_from_entries: drop `or executable[0] != executable[1]`            -> oracle (apply != target)
+ m2 _handle_precise_ids: follow the parent only of *changed* entries           -> T2 (2 cases / 60 scenarios)
+ m3 _handle_precise_ids: drop the "stopped being a directory" children step    -> oracle (dangling parent)
+ m4 iter_changes: removed-entries loop skips top-level directories             -> oracle (apply != target)
+ m5b InterCHKRevisionTree: parents of selected changes not fed to the closure  -> oracle (dangling parent) + chk != generic
+ m6 InterDirStateTree.iter_changes: source_index off by one                    -> oracle (wrong records)
+ m7 _find_children_across_trees: children only from the first tree             -> oracle (changes under filter missing)
+ m8 InterObject.get: optimisers not tried most-recent-first                    -> oracle (selection)
+ m9 _handle_precise_ids: displaced source entry not added                      -> oracle (duplicate sibling names) + T2
+ harmless (stay clean): iterate `sorted(current_ids, reverse=True)`; InterCHKRevisionTree without the
+ discarded_changes stash (results are recomputed, same output)
 """
 import os
 import shutil
@@ -162,7 +173,8 @@ def _rehome(rng, t, c, avoid):
     return True
 
 
-OPS = ["rename", "rename", "reparent", "reparent", "swap", "kind", "delete", "add", "content", "exec", "replace", "takeover"]
+OPS = ["rename", "rename", "reparent", "reparent", "swap", "kind", "delete", "add", "content", "exec", "replace", "takeover",
+       "dirreplace"]
 
 
 def mutate(rng, src, nmut):
@@ -212,12 +224,15 @@ def mutate(rng, src, nmut):
         elif op == "takeover":
             # i moves to the place of j; j is renamed or removed (displaced entry)
             j = rng.choice(ids)
-            if j != i and j not in descendants(t, i) and i not in descendants(t, j) and not (
-                    t[j]["kind"] == "directory" and children(t, j)):
+            if j != i and j not in descendants(t, i) and i not in descendants(t, j):
                 f = t[j]
                 place = (f["parent"], f["name"])
                 if rng.random() < 0.5:
-                    del t[j]
+                    # j goes away; its children are deleted with it or re-homed
+                    for c in children(t, j):
+                        if rng.random() < 0.4:
+                            _rehome(rng, t, c, [j, i] + descendants(t, i))
+                    delete_subtree(t, j)
                 else:
                     n = free_name(rng, t, f["parent"])
                     if n is None:
@@ -252,12 +267,42 @@ def mutate(rng, src, nmut):
             if e["kind"] == "file":
                 e["exec"] = not e["exec"]
                 log.append(op)
-        elif op == "replace":
-            if not children(t, i):
-                ne = dict(e)
-                del t[i]
+        elif op == "dirreplace":
+            # a directory with children is replaced at its path by another directory id
+            # (new or moved in); the old children are deleted or re-homed; something lives
+            # under the replacement
+            ds = [d for d in dirs(t) if d != ROOT and children(t, d)]
+            if not ds:
+                continue
+            x = rng.choice(ds)
+            place = (t[x]["parent"], t[x]["name"])
+            for c in children(t, x):
+                if rng.random() < 0.4:
+                    _rehome(rng, t, c, [x])
+            delete_subtree(t, x)
+            if place[0] not in t:
+                continue
+            movable = [d for d in dirs(t) if d != ROOT and place[0] not in descendants(t, d) and d != place[0]]
+            if movable and rng.random() < 0.5:
+                pnew = rng.choice(movable)
+                t[pnew]["parent"], t[pnew]["name"] = place
+            else:
+                pnew = newid()
+                t[pnew] = dict(parent=place[0], name=place[1], kind="directory", content="", exec=False)
+            ne = new_entry(rng, t, pnew)
+            if ne:
                 t[newid()] = ne
-                log.append(op)
+            log.append(op)
+        elif op == "replace":
+            # a new id takes over the path; old children are deleted or re-homed
+            ne = dict(e)
+            for c in children(t, i):
+                if rng.random() < 0.4:
+                    _rehome(rng, t, c, [i])
+            delete_subtree(t, i)
+            if ne["parent"] in t:
+                t[newid()] = ne
+            log.append(op)
     return t, log
 
 
@@ -572,6 +617,12 @@ def gen_queries(rng, sc, nfilters):
         f = sorted(set(rng.sample(pool, min(k, len(pool)))))
         if f not in filters:
             filters.append(f)
+    # targeted: a single entry whose target parent is not where it was in the source
+    sp, tp = paths(src), paths(tgt)
+    for i in sorted(tgt):
+        p_ = tgt[i]["parent"]
+        if p_ is not None and sp.get(p_) != tp.get(p_) and [tp[i]] not in filters and rng.random() < 0.7:
+            filters.append([tp[i]])
     qs = []
     for f in filters:
         reqv = bool(f) and rng.random() < 0.3
@@ -734,8 +785,13 @@ def oracle(ctx, sc, q, o, unfiltered):
             bad = wf_tree(applied)
             if bad:
                 fam = None
-                if all(x.startswith("duplicate name") for x in bad) and _displaced_unreported(src, tgt, sp, tp, em_changed):
-                    fam = "displaced-entry-not-reported"
+                if all(x.startswith("duplicate name") for x in bad):
+                    if impl == "ds":
+                        # the compiled comparison does not look for displaced entries at all
+                        if _displaced_unreported(src, tgt, sp, tp, em_changed, filt, any_id=True):
+                            fam = "dirstate-displaced-entry-not-reported"
+                    elif _displaced_unreported(src, tgt, sp, tp, em_changed, filt):
+                        fam = "displaced-entry-not-reported"
                 ctx.violation(dict(case, impl=impl), tag + "applying the filtered changes to the source gives an ill-formed tree: %s" % bad[:3],
                               family=fam)
             if q["unv"] and impl in ("ds", "gwt"):
@@ -814,15 +870,36 @@ def _displaces(src, tgt, sp, tp, d):
     return d in sp and any(tp[p] == sp[d] for p in tgt if p != d)
 
 
-def _displaced_unreported(src, tgt, sp, tp, emitted):
-    """some emitted id moves onto a (parent, name) that a non-emitted source id occupies"""
+def _select_ids(src, tgt, sp, tp, filt):
+    """find_ids_across_trees: ids at the filter paths in either tree, closed under children in either tree"""
+    sel = {i for i in src if sp[i] in filt} | {i for i in tgt if tp[i] in filt}
+    while True:
+        more = {c for t in (src, tgt) for c, e in t.items() if e["parent"] in sel} - sel
+        if not more:
+            return sel
+        sel |= more
+
+
+def _displaced_unreported(src, tgt, sp, tp, emitted, filt, any_id=False):
+    """every name clash of the applied tree is of the kind the anchored code does not
+    look for: an emitted id that was *selected by the filter* (or is itself a displaced
+    source entry) moves onto a (parent, name) that a non-emitted source id occupies.
+    (_handle_precise_ids looks for displaced entries only at the target paths of the
+    parents it walks.)"""
+    sel = _select_ids(src, tgt, sp, tp, filt)
+    found = False
     for i in emitted:
         if i in tgt:
             k = (tgt[i]["parent"], tgt[i]["name"])
             for j, e in src.items():
                 if j != i and j not in emitted and (e["parent"], e["name"]) == k:
-                    return True
-    return False
+                    # (third variant: the lookup is by *path*; below a renamed directory the
+                    # occupant of the same (parent id, name) has another source path)
+                    if any_id or i in sel or _displaces(src, tgt, sp, tp, i) or sp[j] != tp[i]:
+                        found = True
+                    else:
+                        return False
+    return found
 
 
 def _chk_family(chk, grev, q):
